@@ -231,31 +231,37 @@ def ref_items_v(elt, v):
     return out
 
 # ---- per-item error scales (B10).  Every float the reference predicts gets the magnitude S against which the allowed
-# relative difference is measured (|reference - implementation| <= rtol * S):
-#   * a value that is only moved / copied / negated (edits, get, pop, field, clone, conj, real, f64 abs, max): S = 0, identical;
-#   * an element-wise product / quotient (scale, f64 * v, *=, /=, div, complex abs): S = the magnitude of the result ITSELF
-#     (|x| |s|, |x| / |s|), so an entry 1e-6 of the largest entry of the same vector is still held to rtol of itself and is
+# relative difference is measured (|reference - implementation| <= rtol * S).  The scale of an ENTRY travels with the entry
+# (list U, parallel to the vector): an input (v0, a pushed / assigned / inserted value, a clone_from source) has U = 0, an
+# entry produced by element-wise arithmetic has the scale it was produced with, and moving / copying it keeps that scale --
+# an implementation that rounds an element-wise operation differently (within rtol) is not reported by a later dump.
+# With m_i = |x_i| + U_i (magnitude of entry i plus what it already carries):
+#   * a value that is only moved / copied / negated (edits, get, pop, field, clone, conj, real, f64 abs): S = U_i -- identical
+#     when the entry is an input or was itself only moved;
+#   * an element-wise product / quotient (scale, f64 * v, *=, /=, div, complex abs): S = m_i |s|, m_i / |s|, m_i: the magnitude
+#     of the result ITSELF, so an entry 1e-6 of the largest entry of the same vector is still held to rtol of itself and is
 #     never allowed to be 0 unless the reference is;
-#   * an element-wise sum / difference (cancellation possible): S = the larger operand magnitude of that entry;
-#   * a reduction (sum, dot, product, norms, slices): S = the sum of the magnitudes of the terms (product: the product of
-#     the magnitudes) -- the scale of the standard backward error bound of ANY summation order.
+#   * an element-wise sum / difference (cancellation possible): S = the larger operand magnitude of that entry + U_i;
+#   * a reduction (sum, dot, product, norms, slices): S = the sum of the m_i of the terms (product: their product; the
+#     root norms: their own value + the sum of the U_i; the maximum: the largest U_i) -- the scale of the standard backward
+#     error bound of ANY summation order.
 # Complex entries carry the modulus-wise S on both components.
 def _mag(x):
-    try: return abs(x)
+    try: return float(abs(x))
     except OverflowError: return math.inf
 
-def _sum_mag(xs):
+def _sum(xs):
     t = 0.0
-    for x in xs: t = t + float(_mag(x))
+    for x in xs: t = t + x
     return t
 
-def _prod_mag(xs):
+def _prod(xs):
     t = 1.0
-    for x in xs: t = t * float(_mag(x))
+    for x in xs: t = t * x
     return t
 
-def _quot_mag(x, s):
-    return float(_mag(x)) / float(_mag(s)) if s != 0 else 0.0
+def _quot(m, s):
+    return m / _mag(s) if s != 0 else 0.0
 
 def _expand_s(elt, S):
     """scale of one element -> scales of its items"""
@@ -266,52 +272,81 @@ def _expand_v(elt, Ss):
     for S in Ss: out += _expand_s(elt, S)
     return out
 
-def result_scales(elt, before, op, r):
-    """scales of the items of the RESULT r = ref_vstep(elt, ., op) computed on the vector `before`"""
+def result_scales(elt, before, U, op, r):
+    """scales of the items of the RESULT r = ref_vstep(elt, ., op) computed on the vector `before` whose entries carry U"""
     name, a = op[0], op[1:]
     v = before; n = len(v)
+    m = [_mag(x) + u for x, u in zip(v, U)]
     if r is None: return []
     if r[0] == 'n': return [None]
-    if name in ("pop", "get"): return _expand_s(elt, 0.0)
-    if name in ("sum", "norm_1"): return _expand_s(elt, _sum_mag(v))
-    if name == "sum_slice": return _expand_s(elt, _sum_mag(v[a[0]:a[1] + 1]))
-    if name == "product": return _expand_s(elt, _prod_mag(v))
-    if name == "product_slice": return _expand_s(elt, _prod_mag(v[a[0]:a[1] + 1]))
-    if name == "dot": return _expand_s(elt, _sum_mag([float(_mag(x)) * float(_mag(y)) for x, y in zip(v, a[0])]))
-    if name == "dot_self": return _expand_s(elt, _sum_mag([float(_mag(x)) ** 2 if float(_mag(x)) < 1e150 else math.inf for x in v]))
-    if name in ("add", "sub"): return _expand_v(elt, [max(float(_mag(x)), float(_mag(y))) for x, y in zip(v, a[0])])
-    if name in ("add_self", "sub_self"): return _expand_v(elt, [float(_mag(x)) for x in v])
-    if name in ("neg", "field", "clone_into"): return _expand_v(elt, [0.0] * n)
-    if name in ("scale", "scale_l"): return _expand_v(elt, [float(_mag(x)) * float(_mag(a[0])) for x in v])
-    if name == "div": return _expand_v(elt, [_quot_mag(x, a[0]) for x in v])
-    if name == "abs": return _expand_v(elt, [float(_mag(x)) if elt == 'cplx' else 0.0 for x in v])
-    if name == "norms": return [bits_f64(it[1]) for it in r[1][:3]] + [0.0]          # each norm against its own value; the maximum is an entry
+    if name == "pop": return _expand_s(elt, U[-1])
+    if name == "get": return _expand_s(elt, U[a[0]])
+    if name in ("sum", "norm_1"): return _expand_s(elt, _sum(m))
+    if name == "sum_slice": return _expand_s(elt, _sum(m[a[0]:a[1] + 1]))
+    if name == "product": return _expand_s(elt, _prod(m))
+    if name == "product_slice": return _expand_s(elt, _prod(m[a[0]:a[1] + 1]))
+    if name == "dot": return _expand_s(elt, _sum([t * _mag(y) for t, y in zip(m, a[0])]))
+    if name == "dot_self": return _expand_s(elt, _sum([t * t for t in m]))
+    if name in ("add", "sub"): return _expand_v(elt, [max(_mag(x), _mag(y)) + u for x, y, u in zip(v, a[0], U)])
+    if name in ("add_self", "sub_self"): return _expand_v(elt, m)
+    if name in ("neg", "field", "clone_into"): return _expand_v(elt, U)
+    if name in ("scale", "scale_l"): return _expand_v(elt, [t * _mag(a[0]) for t in m])
+    if name == "div": return _expand_v(elt, [_quot(t, a[0]) for t in m])
+    if name == "abs": return _expand_v(elt, m if elt == 'cplx' else U)
+    if name == "norms":
+        vals = [bits_f64(it[1]) for it in r[1]]
+        return [_sum(m), abs(vals[1]) + _sum(U), abs(vals[2]) + _sum(U), max(U)]
     if name == "cxview":
-        mods = [float(_mag(z)) for z in v]
-        return _expand_v('cplx', [0.0] * n) + _expand_v('f64', [0.0] * n) + _expand_v('cplx', mods) + [max(mods)]
+        return _expand_v('cplx', U) + _expand_v('f64', U) + _expand_v('cplx', m) + [max(m)]
     if name == "dot_f64":
-        S = _sum_mag([float(_mag(x)) * float(_mag(y)) for x, y in zip(v, a[0])])
+        S = _sum([t * _mag(y) for t, y in zip(m, a[0])])
         return [None, S, S, S]
     if r[0] == 'items': return [None] * len(r[1])        # integers only (cmp, cmp_self)
     raise ValueError("no scale rule for " + name)
 
-def dump_scales(elt, before, op, after):
-    """scales of the dump of the vector after the MUTATING operation op (before -> after)"""
+def carried_scales(elt, before, U, op, after):
+    """the scales the entries of `after` carry, `after` being `before` (entries carrying U) after the MUTATING operation op;
+    they are also the scales of the dump that follows the operation"""
     name, a = op[0], op[1:]
-    if name in ("add_assign", "sub_assign") and len(a[0]) == len(before):
-        return _expand_v(elt, [max(float(_mag(x)), float(_mag(y))) for x, y in zip(before, a[0])])
-    if name in ("add_assign_s", "sub_assign_s"): return _expand_v(elt, [max(float(_mag(x)), float(_mag(a[0]))) for x in before])
-    if name == "mul_assign_s": return _expand_v(elt, [float(_mag(x)) * float(_mag(a[0])) for x in before])
-    if name == "div_assign_s": return _expand_v(elt, [_quot_mag(x, a[0]) for x in before])
-    return _expand_v(elt, [0.0] * len(after))         # entries moved, copied, inserted, removed: identical
+    n = len(before)
+    m = [_mag(x) + u for x, u in zip(before, U)]
+    if name in ("push", "clone_mut"): out = U + [0.0]
+    elif name == "push_front": out = [0.0] + U
+    elif name == "insert": out = U[:a[0]] + [0.0] + U[a[0]:]
+    elif name == "pop": out = U[:-1]
+    elif name == "swap":
+        out = list(U); out[a[0]], out[a[1]] = out[a[1]], out[a[0]]
+    elif name == "resize": out = U[:a[0]] + [0.0] * max(a[0] - n, 0)
+    elif name in ("assign", "clear", "clone_from"): out = [0.0] * len(after)
+    elif name == "set":
+        out = list(U); out[a[0]] = 0.0
+    elif name in ("sort", "sort_desc", "sort_absdesc"):
+        kf = (lambda x: (abs(x), x)) if name == "sort_absdesc" else (lambda x: _key(elt, x))
+        order = sorted(range(n), key=lambda i: kf(before[i]), reverse=(name != "sort"))
+        out = [U[i] for i in order]
+        i = 0                                            # equal keys may come out in any order: a run of ties shares its largest scale
+        while i < n:
+            j = i
+            while j + 1 < n and kf(before[order[j + 1]]) == kf(before[order[i]]): j += 1
+            top = max(out[i:j + 1])
+            for k in range(i, j + 1): out[k] = top
+            i = j + 1
+    elif name in ("add_assign", "sub_assign"): out = [max(_mag(x), _mag(y)) + u for x, y, u in zip(before, a[0], U)]
+    elif name in ("add_assign_s", "sub_assign_s"): out = [max(_mag(x), _mag(a[0])) + u for x, u in zip(before, U)]
+    elif name == "mul_assign_s": out = [t * _mag(a[0]) for t in m]
+    elif name == "div_assign_s": out = [_quot(t, a[0]) for t in m]
+    else: raise ValueError("no carry rule for " + name)
+    if len(out) != len(after): raise ValueError("carried scales out of step after " + name)
+    return out
 
 def ref_vhist(elt, v0, ops, scales=None):
     """expected item stream of a history under the reference model; when `scales` is a list it receives, item for item,
     the error scale of every predicted float (None for integers, rationals, panics)"""
     v = list(v0)
     out = ref_items_v(elt, v)
-    sc = _expand_v(elt, [0.0] * len(v))
     want = scales is not None and elt != 'rat'           # rationals are compared exactly: no scale
+    U = [0.0] * len(v)                                   # the scale every entry of v carries
+    sc = _expand_v(elt, U)
     for op in ops:
         snap = list(v)
         try:
@@ -319,15 +354,17 @@ def ref_vhist(elt, v0, ops, scales=None):
             if r is not None:
                 if r[0] == 'items': out += r[1]
                 else: out += ref_items_s(elt, r[1]) if r[0] == 's' else (ref_items_v(elt, r[1]) if r[0] == 'v' else [('i', r[1])])
-                if want: sc += result_scales(elt, snap, op, r)
+                if want: sc += result_scales(elt, snap, U, op, r)
             if op[0] in MUTATING:
                 out += ref_items_v(elt, v)
-                if want: sc += dump_scales(elt, snap, op, v)
+                if want:
+                    U = carried_scales(elt, snap, U, op, v)
+                    sc += _expand_v(elt, U)
         except RefPanic:
             v = snap
             out += [('P', 'any')]
             out += ref_items_v(elt, v)
-            if want: sc += [None] + _expand_v(elt, [0.0] * len(v))
+            if want: sc += [None] + _expand_v(elt, U)
     if want and len(sc) != len(out): raise ValueError("scale list out of step with the reference stream")
     if scales is not None: scales[:] = sc if want else [None] * len(out)
     return out
@@ -364,8 +401,8 @@ def streams_match(exp, got, rtol, scales=None):
             if S is None:
                 allowed = rtol * scale
             else:
-                allowed = (rtol * S + 1e-300) if (rtol > 0 and S > 0 and S == S) else 0.0
-                if allowed == math.inf: continue
+                if S != S or S == math.inf: continue            # the scale itself overflowed: nothing is claimed for this item
+                allowed = (rtol * S + 1e-300) if (rtol > 0 and S > 0) else 0.0
             if not (abs(x - y) <= allowed):
                 return "item %d: reference %r, implementation %r (allowed difference %g = %g relative to %s)" % (
                     i, x, y, allowed, rtol, "the run of floats" if S is None else "the item's own scale %g" % S)
